@@ -79,6 +79,16 @@ fn check_thick(ctx: &mut Ctx, a: Point, b: Point, w: u32, thin: &[Point]) {
         ctx.violation("thick|exceeds-step-budget", case, || format!("more than {} pixels", budget));
         return;
     }
+    // the same pixels through the other ways of consuming the iterator (count, last, for_each/fold,
+    // nth, skip), from partly consumed states: inside the first parallel, at a change of parallel, at the end
+    if px.len() <= 400 {
+        let n = px.len();
+        let reference: Vec<embedded_graphics::Pixel<BinaryColor>> = px.iter().map(|p| embedded_graphics::Pixel(*p, BinaryColor::On)).collect();
+        if let Some(d) = egmon::target::consumer_disagreement(&|| styled.pixels(), &reference, &[0, 1, 3, n / 2, (major as usize + 2).min(n), n.saturating_sub(1), n]) {
+            ctx.violation("thick|pixels-iterator-consumed-differently", case, || d.clone());
+        }
+        ctx.count("styled_pixel_iterators_consumed_in_other_ways", 1);
+    }
     // no pixel twice
     let mut set: FastSet<(i32, i32)> = FastSet::default();
     for p in &px {
